@@ -219,6 +219,16 @@ def _mapv(a, b: Dict, c):
     return res
 
 
+def _missing_if_any_missing(args, res):
+    """
+    maximum / minimum propagate a missing operand (fmax / fmin skip it); max_horizontal / min_horizontal alone skip nulls.
+    """
+    is_missing = [
+        (a if isinstance(a, pl.Expr) else pl.lit(a)).is_null() for a in args
+    ]
+    return pl.when(pl.any_horizontal(is_missing)).then(None).otherwise(res)
+
+
 def _populate_expr_impl_map(extend_context: bool) -> Dict[int, Dict[str, Callable]]:
     """
     Map symbols to implementations.
@@ -295,7 +305,7 @@ def _populate_expr_impl_map(extend_context: bool) -> Dict[int, Dict[str, Callabl
         "is_bad": lambda x: x.is_null()
         | x.is_infinite()
         | x.is_nan(),  # recommend only for numeric columns
-        "is_inf": lambda x: x.is_infinite(),
+        "is_inf": lambda x: x.is_infinite().fill_null(False),  # a missing value is not infinite
         "is_nan": lambda x: x.is_nan(),
         "is_null": lambda x: x.is_null(),
         "last": lambda x: x.drop_nulls().last(),  # last non-null, as Pandas
@@ -572,8 +582,8 @@ class PolarsModel(data_algebra.data_model.DataModel):
             "concat": lambda *args: pl.concat_str(args),
             "fmax": lambda *args: pl.max_horizontal(args),
             "fmin": lambda *args: pl.min_horizontal(args),
-            "maximum": lambda *args: pl.max_horizontal(args),
-            "minimum": lambda *args: pl.min_horizontal(args),
+            "maximum": lambda *args: _missing_if_any_missing(args, pl.max_horizontal(args)),
+            "minimum": lambda *args: _missing_if_any_missing(args, pl.min_horizontal(args)),
             "+": _reduce_plus,
             "*": _reduce_times,
             "and": _reduce_and,
